@@ -201,12 +201,15 @@ package stack
 //@   loop 2: decreases closed - i
 
 //@ func ScanSnapshot
+//@   gvar rdErr error = zero
+//@   update after-call readLine#1: rdErr := ret1
 //@   requires in != nil && prefix != nil
 //@   requires 0 <= fetched(in) && fetched(in) <= N(in) && 0 <= wlen(prefix)
 //@   ensures [forwardedIsStreamPrefix C02 C09] wlen(prefix) >= old(wlen(prefix)) && (forall k :: 0 <= k && k < old(wlen(prefix)) ==> wdata(prefix)[k] == old(wdata(prefix))[k]) && (forall j :: old(wlen(prefix)) <= j && j < wlen(prefix) ==> wdata(prefix)[j] == S(in, old(fetched(in)) + (j - old(wlen(prefix)))))
 //@   ensures [nothingBeforeForwardedIsHeld C02] old(fetched(in)) + (wlen(prefix) - old(wlen(prefix))) + len(result1) <= fetched(in)
 //@   ensures [suffixIsTail C02 C07] forall k :: 0 <= k && k < len(result1) ==> result1[k] == S(in, fetched(in) - len(result1) + k)
 //@   at-return [bufferedInSuffix C02 C07] opts != nil && s != nil && s.state != looking ==> len(result1) >= r.w - r.r
+//@   at-return [readerErrorWins C10] opts != nil && s != nil && rdErr != nil && rdErr != io.EOF ==> result2 == rdErr
 //@   at-return [noDumpAllForwarded C02] opts != nil && s != nil && s.state == looking && werrs(prefix) == old(werrs(prefix)) ==> old(fetched(in)) + (wlen(prefix) - old(wlen(prefix))) == fetched(in)
 //@   loop 0: invariant RI(r) && r.rd == in && Inv(s) && suffix == nil && fresh(r) && fresh(s) && fresh(s.Snapshot) && opts != nil
 //@   loop 0: invariant wlen(prefix) >= old(wlen(prefix)) && (forall k :: 0 <= k && k < old(wlen(prefix)) ==> wdata(prefix)[k] == old(wdata(prefix))[k])
@@ -214,6 +217,7 @@ package stack
 //@   loop 0: invariant err != nil ==> pos(r) == fetched(in)
 //@   loop 0: invariant old(fetched(in)) + (wlen(prefix) - old(wlen(prefix))) <= pos(r)
 //@   loop 0: invariant s.state == looking && werrs(prefix) == old(werrs(prefix)) ==> old(fetched(in)) + (wlen(prefix) - old(wlen(prefix))) == pos(r)
+//@   loop 0: invariant [errIsReaderError C10] (rdErr != nil && rdErr != io.EOF ==> err == rdErr) && (err == nil ==> rdErr == nil)
 //@   loop 0: invariant werrs(prefix) >= old(werrs(prefix)) && (err == nil ==> werrs(prefix) == old(werrs(prefix)))
 //@   loop 0: decreases (err == nil ? 1 : 0)
 //@   loop 0: decreases N(in) - pos(r)
